@@ -24,12 +24,12 @@ SPEC = {
         "ua-marker": "C19_marker_spec", "gen-render": "C19_render_value_spec, C19_extends_spec, C19_render_value_total",
         "fn-render": "C19_render_value_total (RenderValueStyle / RenderMarker on symbols() and string styles)",
         "parse": "css-counter-styles-3 descriptor grammar (generator) -- feeds the table of C19_render_value_spec",
-        "doc": "C19_build_spec / C19_scopes_spec / C19_counters_outermost_first", "corpus-render": "C19_render_value_spec / C19_render_value_total", "corpus-doc": "C19_build_spec",
+        "doc": "C19_build_spec / C19_scopes_spec / C19_counters_outermost_first / C19_pseudo_list_item_marker", "corpus-render": "C19_render_value_spec / C19_render_value_total", "corpus-doc": "C19_build_spec",
     },
-    "rule": "corpus/C19/*.case first (witnesses of the repaired defects); every predefined style of html5_ua.css x {range boundaries, weights, symbol-count boundaries, 0, +-1, +-(2^31-1), +-2^31, 2^53+1, +-(2^63-1)} through RenderValue and RenderMarker; all of [-300,3000] for decimal, lower-roman, upper-alpha, hebrew and 6 rotating predefined styles (all in the thorough tier); SplitMix64-seeded sets of 1-6 @counter-style rules (all systems, 0-10 symbols incl. non-ASCII and empty, ranges with infinite, pad, negative, prefix/suffix, fallback/extends graphs incl. cycles, unknown targets, names equal to system keywords or predefined styles; one quarter with malformed declarations) installed through real CSS text and rendered for [-14,34] + boundaries + big values; symbols()/string/unknown style references; intended-vs-parsed descriptor records; random ol/ul/li/div/span documents with counter-reset/-set/-increment classes on elements and ::before/::after, display none/list-item, li::marker content, list-style-type; non-trivial = the output is not the plain decimal string / a document with at least two generated texts; distinct by Coq term",
+    "rule": "corpus/C19/*.case first (witnesses of the repaired defects); every predefined style of html5_ua.css x {range boundaries, weights, symbol-count boundaries, 0, +-1, +-(2^31-1), +-2^31, 2^53+1, +-(2^63-1)} through RenderValue and RenderMarker; all of [-300,3000] for decimal, lower-roman, upper-alpha, hebrew and 6 rotating predefined styles (all in the thorough tier); SplitMix64-seeded sets of 1-6 @counter-style rules (all systems, 0-10 symbols incl. non-ASCII and empty, ranges with infinite, pad, negative, prefix/suffix, fallback/extends graphs incl. cycles, unknown targets, names equal to system keywords or predefined styles; one quarter with malformed declarations) installed through real CSS text and rendered for [-14,34] + boundaries + big values; symbols()/string/unknown style references; intended-vs-parsed descriptor records; random ol/ul/li/div/span documents with counter-reset/-set/-increment classes on elements and ::before/::after, display none/list-item, li::marker content, list-style-type; one third of the documents with ::before/::after pseudo-elements that are list items themselves (display: list-item, own ::marker generated after their own counter-reset/-set/-increment and implicit list-item increment; list-style-type counter styles / symbols() / strings inherited from body and classes; ::marker content); non-trivial = the output is not the plain decimal string / a document with at least two generated texts; distinct by Coq term",
 }
 MANIFEST = {
-    "text": "Coq theorems over executable models of css/counters/counters.go and of the counter bookkeeping of html/boxes/build.go: the six Counter Styles algorithms equal their mathematical definitions for every symbol list and every integer (cyclic with mathematical mod, fixed, symbolic, alphabetic = unique bijective base-L digits, numeric = unique positional digits without leading zero, additive = the specification's greedy decomposition whose weights sum to the value); RenderValue/RenderMarker equal 'generate a counter representation' (range incl. auto bounds, negative sign, pad, fallback chain with unknown/loop -> decimal, extends with unknown/cycle -> decimal) for every well-formed rule table, name and int64 value, and the specification is proved deterministic (counter_repr T n v s -> RenderValue = Ok s); they never panic and terminate on every table (cycles included); the name->stack / per-depth-set traversal state always denotes the CSS 2.1/Lists instance frames (reset replaces the sibling-created instance, set/increment act on the innermost or create one, counters() outermost first, int32 clamping) and its slice operations never panic. The models are compared with /repo on generated inputs on every run.",
-    "note": "Trusted: Coq kernel (vm_compute), Go harness go/cmd/c19 (record dump, style dump, box-tree projection, reachable-table closure), generator's re-implementation of the descriptor grammar for the parse cases. No axioms (20 theorems closed under the global context). Partial: grapheme clusters approximated by code points; cascade/value parsing of counter-* properties are inputs; marker specification for symbols()/string references not stated (tied + totality only); MinInt64 excluded.",
+    "text": "Coq theorems over executable models of css/counters/counters.go and of the counter bookkeeping of html/boxes/build.go: the six Counter Styles algorithms equal their mathematical definitions for every symbol list and every integer (cyclic with mathematical mod, fixed, symbolic, alphabetic = unique bijective base-L digits, numeric = unique positional digits without leading zero, additive = the specification's greedy decomposition whose weights sum to the value); RenderValue/RenderMarker equal 'generate a counter representation' (range incl. auto bounds, negative sign, pad, fallback chain with unknown/loop -> decimal, extends with unknown/cycle -> decimal) for every well-formed rule table, name and int64 value, and the specification is proved deterministic (counter_repr T n v s -> RenderValue = Ok s); they never panic and terminate on every table (cycles included); the name->stack / per-depth-set traversal state always denotes the CSS 2.1/Lists instance frames (reset replaces the sibling-created instance, set/increment act on the innermost or create one, counters() outermost first, int32 clamping; ::before/::after act as first/last child, a list-item pseudo-element's ::marker is generated after its own counter updates) and its slice operations never panic. The models are compared with /repo on generated inputs on every run.",
+    "note": "Trusted: Coq kernel (vm_compute), Go harness go/cmd/c19 (record dump, style dump, box-tree projection, reachable-table closure), generator's re-implementation of the descriptor grammar for the parse cases. No axioms (21 theorems closed under the global context). Partial: grapheme clusters approximated by code points; cascade/value parsing of counter-* properties are inputs; marker specification for symbols()/string references not stated (tied + totality only); MinInt64 excluded.",
     "technique": "Coq proof over executable model + vm_compute correspondence with the Go implementation",
 }
